@@ -287,11 +287,21 @@ class Fn:
         if getattr(self, '_mip', None) is None:
             out: Set[str] = set()
             MUT = ('append', 'extend', 'insert', 'update', 'add', 'pop', 'popitem', 'remove', 'discard', 'clear', 'setdefault', 'sort', 'reverse')
+            def root(e):
+                # `groups[k].append(x)` and `groups[k][j] = x` change what `groups` holds just as `groups.update(...)` does
+                while isinstance(e, (ast.Subscript, ast.Attribute)):
+                    e = e.value
+                return e.id if isinstance(e, ast.Name) else None
+
             for x in ast.walk(self.fi.node):
-                if isinstance(x, (ast.Subscript, ast.Attribute)) and isinstance(x.ctx, (ast.Store, ast.Del)) and isinstance(x.value, ast.Name):
-                    out.add(x.value.id)
-                if isinstance(x, ast.Call) and isinstance(x.func, ast.Attribute) and x.func.attr in MUT and isinstance(x.func.value, ast.Name):
-                    out.add(x.func.value.id)
+                if isinstance(x, (ast.Subscript, ast.Attribute)) and isinstance(x.ctx, (ast.Store, ast.Del)):
+                    r_ = x.value.id if isinstance(x.value, ast.Name) else (root(x.value) if isinstance(x.value, ast.Subscript) else None)
+                    if r_ is not None:
+                        out.add(r_)
+                if isinstance(x, ast.Call) and isinstance(x.func, ast.Attribute) and x.func.attr in MUT:
+                    r_ = x.func.value.id if isinstance(x.func.value, ast.Name) else (root(x.func.value) if isinstance(x.func.value, ast.Subscript) else None)
+                    if r_ is not None:
+                        out.add(r_)
             self._mip = out
         return self._mip
 
